@@ -104,7 +104,8 @@ def encodeEvent (e : Event) : JT :=
 
 /-! ### ReqFilter -/
 
-def strByte (s : String) (i : Nat) : Int := ((s.toUTF8.toList.getD i 0).toNat : Int)
+/-- the `i`-th byte of the UTF-8 encoding of `s` (0 beyond the end) -/
+def strByte (s : String) (i : Nat) : Int := ((((s.toList.flatMap String.utf8EncodeChar).getD i 0).toNat : Nat) : Int)
 
 def isTagKey (k : String) : Bool := Gen.filterKeyTag k.utf8ByteSize (strByte k 0) (strByte k 1)
 
@@ -116,6 +117,12 @@ def decOptStrs (kvs : List (String × JT)) (k : String) : DecE (Option (List Str
   match objGet kvs k with
   | none => .ok none
   | some (.arr a) => (decStrsStrict a).map some
+  | some _ => .error s!"{k} is not a json array"
+
+def decOptInts (kvs : List (String × JT)) (k : String) : DecE (Option (List Int)) :=
+  match objGet kvs k with
+  | none => .ok none
+  | some (.arr a) => (decInts a).map some
   | some _ => .error s!"{k} is not a json array"
 
 def decOptInt (kvs : List (String × JT)) (k : String) : DecE (Option Int) :=
@@ -140,10 +147,7 @@ def decodeFilter : JT → DecE Filter
     else do
       let ids ← decOptStrs kvs "ids"
       let authors ← decOptStrs kvs "authors"
-      let kinds ← (match objGet kvs "kinds" with
-        | none => .ok none
-        | some (.arr a) => (decInts a).map some
-        | some _ => .error "kinds is not a json array")
+      let kinds ← decOptInts kvs "kinds"
       let tagKeys := (objKeys kvs).filter isTagKey
       let tags ← decTagConds kvs tagKeys
       let since ← decOptInt kvs "since"
